@@ -23,6 +23,7 @@
        struct H  { x: AnyStruct }             struct N  { next: N?; id: UInt8 }
        struct interface SI {}                 struct T: SI { f: Int }
        enum E: UInt8 { case x; case y }       resource R { n: Int }
+       struct K  { m: {E: Int}; l: [S2] }
      } *)
 EXTENDS CdcSyntax, Naturals, Sequences, FiniteSets, TLC, Json
 
@@ -39,14 +40,15 @@ DSI == Comp("StructInterface", Q("SI"), <<>>, <<>>, <<>>)
 DT  == Comp("Struct", Q("T"), <<Fld("f", P("Int"))>>, <<>>, <<>>)
 DE  == Comp("Enum", Q("E"), <<Fld("rawValue", P("UInt8"))>>, <<>>, << P("UInt8") >>)
 DR  == Comp("Resource", Q("R"), <<Fld("uuid", P("UInt64")), Fld("n", P("Int"))>>, <<>>, <<>>)
-Declared == {DS, DS2, DH, DN, DSI, DT, DE, DR}
+DK  == Comp("Struct", Q("K"), <<Fld("m", DictT(DE, P("Int"))), Fld("l", VArr(DS2))>>, <<>>, <<>>)
+Declared == {DS, DS2, DH, DN, DSI, DT, DE, DR, DK}
 Decl(tid) == CHOOSE d \in Declared : d.tid = tid
 IsDeclared(tid) == \E d \in Declared : d.tid = tid
 Implements == {<<Q("T"), Q("SI")>>}     \* struct T: SI
 
 \* ---------------------------------------------------------------- source text of a type
 SizeText(n) == CASE n = 0 -> "0" [] n = 1 -> "1" [] n = 2 -> "2" [] n = 3 -> "3"
-NameOfTid(tid) == CHOOSE n \in {"S", "S2", "H", "N", "SI", "T", "E", "R"} : Q(n) = tid
+NameOfTid(tid) == CHOOSE n \in {"S", "S2", "H", "N", "SI", "T", "E", "R", "K"} : Q(n) = tid
 RECURSIVE Src(_)
 Src(t) ==
   CASE t.k = "prim"  -> t.n
@@ -144,8 +146,11 @@ HasCap(t) == CASE t.k = "cap" -> TRUE [] t.k \in {"opt", "varr", "carr"} -> HasC
 Unrec(t) == IF t.k = "rec" THEN Decl(t.tid) ELSE t
 
 \* canonical identity of a key, to detect duplicates (only scalar keys occur)
+RECURSIVE KeyId(_)
 KeyId(v) == CASE v.k = "num" -> <<v.t, v.s>> [] v.k = "str" -> <<"s", v.s>> [] v.k = "bool" -> <<"b", v.b>>
-              [] v.k = "addr" -> <<"a", v.h>> [] OTHER -> <<"?", v.k>>
+              [] v.k = "addr" -> <<"a", v.h>>
+              [] v.k = "comp" /\ Len(v.vs) = 1 -> <<"e", v.t.tid, KeyId(v.vs[1])>>     \* an enum key is identified by type and raw value
+              [] OTHER -> <<"?", v.k>>
 
 \* Cadence type names of the static types of scalar values
 PrimOf(v) == CASE v.k = "num" -> v.t [] v.k = "fix" -> v.t [] v.k = "str" -> "String" [] v.k = "chr" -> "Character"
@@ -158,6 +163,8 @@ PrimOf(v) == CASE v.k = "num" -> v.t [] v.k = "fix" -> v.t [] v.k = "str" -> "St
 \* only checked shallowly. The model therefore asks for SOME entry per distinct key to conform.
 KeyIds(ps) == {KeyId(ps[i].key) : i \in 1..Len(ps)}
 
+HashableValue(v) == v.k \in {"num", "fix", "str", "chr", "bool", "addr", "path", "type"} \/ (v.k = "comp" /\ v.t.ck = "Enum")
+
 RECURSIVE Conforms(_, _), ConformsU(_, _), WellFormed(_)
 \* a value on its own: importable, and every composite inside matches its declaration
 WellFormed(v) ==
@@ -166,7 +173,7 @@ WellFormed(v) ==
     [] v.k = "arr"  -> \A i \in 1..Len(v.vs) : WellFormed(v.vs[i])
     [] v.k = "dict" -> \A kid \in KeyIds(v.ps) : \E i \in 1..Len(v.ps) :
                           /\ KeyId(v.ps[i].key) = kid /\ WellFormed(v.ps[i].key) /\ WellFormed(v.ps[i].v)
-                          /\ v.ps[i].key.k \in {"num", "fix", "str", "chr", "bool", "addr", "path", "type"}
+                          /\ HashableValue(v.ps[i].key)
     [] v.k = "range" -> /\ v.start.k = "num" /\ v.end.k = "num" /\ v.step.k = "num"
                         /\ v.start.t = v.end.t /\ v.start.t = v.step.t
     [] v.k = "comp" -> /\ IsDeclared(v.t.tid)
@@ -233,7 +240,7 @@ Corrupt(v) ==
      [] v.k = "dict" ->
           (UNION {{[v |-> [v EXCEPT !.ps = ReplaceAt(v.ps, i, KV(v.ps[i].key, c.v))], how |-> "dictvalue:" \o c.how] : c \in Corrupt(v.ps[i].v)} : i \in 1..Len(v.ps)})
           \cup (UNION {{[v |-> [v EXCEPT !.ps = ReplaceAt(v.ps, i, KV(c.v, v.ps[i].v))], how |-> "dictkey:" \o c.how] :
-                           c \in {x \in Corrupt(v.ps[i].key) : x.how \in {"leaf:string", "leaf:int", "leaf:sibling-type"}}} : i \in 1..Len(v.ps)})
+                           c \in Corrupt(v.ps[i].key)} : i \in 1..Len(v.ps)})
           \cup (IF v.ps = <<>> THEN {} ELSE {[v |-> [v EXCEPT !.ps = Append(v.ps, v.ps[1])], how |-> "dict:duplicate-key"]})
      [] v.k = "comp" ->
           (UNION {{[v |-> [v EXCEPT !.vs = ReplaceAt(v.vs, i, c.v)], how |-> "field:" \o c.how] : c \in Corrupt(v.vs[i])} : i \in 1..Len(v.vs)})
